@@ -19,6 +19,7 @@ and are not invariant are handled by peeling the first iteration (flags such as 
 from __future__ import annotations
 
 import ast
+import re
 import hashlib
 
 import z3
@@ -370,13 +371,26 @@ class Generic:
         # inner: the fresh constant(s) standing for the accumulated content (Seq / String / Array / V)
 
 
-def make_generic(ctx, path, name, entry):
-    """A value of the same kind as `entry` with arbitrary content."""
+def _ite_kind(t, depth=0):
+    """Constructor shared by all leaves of an if-then-else term (None if they differ)."""
+    if depth > 8:
+        return None
+    c = smt.ctor(t)
+    if c is not None:
+        return c
+    if z3.is_app(t) and t.decl().kind() == z3.Z3_OP_ITE:
+        a, b = _ite_kind(t.arg(1), depth + 1), _ite_kind(t.arg(2), depth + 1)
+        return a if a is not None and a == b else None
+    return None
+
+
+def make_generic(ctx, path, name, entry, counter=False):
+    """A value of the same kind as `entry` with arbitrary content (counter: an integer even if it starts as a literal)."""
     if not isinstance(entry, Val):
         return None
     t = simp(entry.t)
     c = smt.ctor(t)
-    k = c or ctx.kind(entry)
+    k = c or ctx.kind(entry) or _ite_kind(t)
     tag = f"g_{name}"
     if k == "VList":
         g = ctx.new(tag, smt.SeqV)
@@ -388,7 +402,7 @@ def make_generic(ctx, path, name, entry):
         sid = ctx.new(tag + "_sid", smt.IntS)
         v = Val(V.VSet(sid, V.fz(entry.t)), entry.ann, own=entry.own, deep=entry.deep, src=entry.src)
         return Generic(name, entry, v, smt.setof(sid), "set")
-    if k == "VInt" and not (c == "VInt" and z3.is_int_value(t.arg(0))):
+    if k == "VInt" and (counter or not (c == "VInt" and z3.is_int_value(t.arg(0)))):
         g = ctx.new(tag, smt.IntS)
         return Generic(name, entry, Val(V.VInt(g), ("int",)), g, "int")
     # scalars / None / objects / unknown: arbitrary V (keeps declared shape if it is not a literal)
@@ -490,10 +504,23 @@ def summarise(ctx, fr, path, src, body, lo, hi, peel):
     d = ctx.decide(path, lo < hi)
     if d is False:
         return [(path, Outcome("fall"))]
-    return _summarise_nonempty(ctx, fr, path, src, body, lo, hi, peel)
+    # locals that start as an integer literal: first carried as integer accumulators (k = 0 ... k += 1, summed
+    # per-iteration deltas); a local whose updates are not increments falls back to the last-write treatment
+    counters = frozenset(n for n in body.names if n in path.env and isinstance(path.env[n], Val)
+                         and smt.ctor(simp(path.env[n].t)) == "VInt" and z3.is_int_value(simp(path.env[n].t).arg(0)))
+    while True:
+        try:
+            return _summarise_nonempty(ctx, fr, path, src, body, lo, hi, peel, counters)
+        except Unsupported as e:
+            m = re.search(r"(?:counter '([A-Za-z_#][A-Za-z0-9_#]*)' update is not an increment|'([A-Za-z_#][A-Za-z0-9_#]*)' changes kind)", str(e))
+            name = (m.group(1) or m.group(2)) if m else None
+            if name and name in counters:
+                counters = counters - {name}
+                continue
+            raise
 
 
-def _summarise_nonempty(ctx, fr, path, src, body, lo, hi, peel):
+def _summarise_nonempty(ctx, fr, path, src, body, lo, hi, peel, counters=frozenset()):
     where = body.where
     names = [n for n in sorted(body.names) if n in path.env and isinstance(path.env[n], Val)]
     # carried heap locations are discovered by a fixpoint over trial executions
@@ -508,7 +535,7 @@ def _summarise_nonempty(ctx, fr, path, src, body, lo, hi, peel):
         for n in names:
             if n in const_names:
                 continue
-            g = make_generic(ctx, pre, n, path.env[n])
+            g = make_generic(ctx, pre, n, path.env[n], counter=(n in counters))
             if g is not None:
                 gens[n] = g
                 pre.env[n] = g.val
@@ -522,7 +549,8 @@ def _summarise_nonempty(ctx, fr, path, src, body, lo, hi, peel):
         ghost_gens = {}
         for gname in getattr(body, "ghosts", []):
             if gname in path.ghost:
-                g = make_generic(ctx, pre, "ghost_" + gname, path.ghost[gname])
+                g = make_generic(ctx, pre, "ghost_" + (gname if isinstance(gname, str) else "_".join(str(x)[:12] for x in gname)), path.ghost[gname],
+                             counter=not isinstance(gname, str))
                 ghost_gens[gname] = g
                 pre.ghost[gname] = g.val
         base_pc = len(pre.pc)
@@ -727,9 +755,20 @@ def _summarise_nonempty(ctx, fr, path, src, body, lo, hi, peel):
             deltas = []
             for c, p, v in posts:
                 t = simp(v.t)
-                if smt.ctor(t) != "VInt":
+                if _ite_kind(t) != "VInt":
                     raise Unsupported(f"loop at {where}: '{g.name}' changes kind")
-                d = close(simp(t.arg(0) - g.inner))
+                def _delta(x, depth=0):
+                    if smt.ctor(x) == "VInt":
+                        def _idelta(e, dd=0):
+                            e = simp(e)
+                            if dd < 8 and z3.is_app(e) and e.decl().kind() == z3.Z3_OP_ITE:
+                                return simp(z3.If(e.arg(0), _idelta(e.arg(1), dd + 1), _idelta(e.arg(2), dd + 1)))
+                            return simp(e - g.inner)
+                        return _idelta(x.arg(0))
+                    if depth < 8 and z3.is_app(x) and x.decl().kind() == z3.Z3_OP_ITE:
+                        return simp(z3.If(x.arg(0), _delta(x.arg(1), depth + 1), _delta(x.arg(2), depth + 1)))
+                    return simp(V.i(x) - g.inner)
+                d = close(_delta(t))
                 if mentions(d, [L.state_const]):
                     raise Unsupported(f"loop at {where}: counter '{g.name}' update is not an increment")
                 if mentions(d, others):
